@@ -5,8 +5,8 @@ import grammar
 from props import parse_common as pc
 
 LEVEL = 'proof'
-MODULES = ['Pysmi.Props.C11', 'Pysmi.Pins.Lex']
-LAKE_TARGETS = ['Pysmi.Props.C11', 'Pysmi.Pins.Lex']
+MODULES = ['Pysmi.Props.C11', 'Pysmi.Props.C11Lines', 'Pysmi.Pins.Lex']
+LAKE_TARGETS = ['Pysmi.Props.C11', 'Pysmi.Props.C11Lines', 'Pysmi.Pins.Lex']
 THEOREMS = [
     'Pysmi.Lexer.C11_step_progress',
     'Pysmi.Lexer.C11_lexer_terminates',
@@ -15,6 +15,10 @@ THEOREMS = [
     'Pysmi.LR.C02_no_accept_past_lexer_error',
     'Pysmi.LR.C11_accept_means_complete',
     'Pysmi.LR.C11_total',
+    'Pysmi.Lexer.C11_step_lines',
+    'Pysmi.Lexer.countNewlines_append',
+    'Pysmi.Lexer.C11_token_lines',
+    'Pysmi.Lexer.C11_token_lines_tokens',
     'Pysmi.Pins.Lex.pin_rules',
     'Pysmi.Pins.Lex.pin_literals',
     'Pysmi.Pins.Lex.pin_states',
@@ -30,9 +34,10 @@ LEVEL_TEXT = ('Proved in Lean for every text and every table set: each lexer rul
               'terminates within length+1 steps; number tokens are classed by the two bounds (regenerated from the source), beyond 64 bits is a '
               'lexer error; for arbitrary LR tables an accepted token list is exactly the frontier of a valid derivation tree from the start '
               'symbol, and a text whose scanning fails is never accepted - hence parse() returns modules only for a complete file and '
-              'otherwise a lexer or parser error with a line. That the reported line is the offending token\'s line is tied by correspondence '
-              '(exactly, for lexer errors placed at known positions) rather than proved; lines after MACRO/EXPORTS/CHOICE bodies containing '
-              'line ends are under-counted (recorded finding). Non-termination of the real implementation is bounded by a per-case timeout '
+              'otherwise a lexer or parser error with a line. Line numbers are proved too: every rule adds to the line counter exactly the '
+              'line ends (LF, CR, CR LF once) of the text it consumes and never stops inside a CR LF, hence every token carries the number of '
+              'the line it starts on and a lexer error the line where scanning stopped (C11_token_lines); a parser error reports the line of '
+              'the offending token, which is that token\'s line field (model: LR.parse), tied by correspondence. Non-termination of the real implementation is bounded by a per-case timeout '
               '(runtime, partial).')
 LEVEL_NOTE = ('Trusted: Lean kernel + standard axioms; the hand-written lexer model (pinned against the regenerated rule table) and generic LR '
               'driver; the translator (grammar.py: productions, LALR tables exported from PLY, p_* bodies translated from their Python source); '
